@@ -152,8 +152,9 @@ static void do_acts(ActC *acts, int n) {
     }
 }
 
-static void scripted_body(void) { TestC *t = current(); log_event("body"); decl_counter = 0; if (t) { running_file = t->spec.filename; do_acts(t->body, t->nbody); } }
-static void ctx_setup(void) { TestC *t = current(); log_event("ctxSetup"); if (t) do_acts(t->setup, t->nsetup); }
+/* every declaration of one test (context setup, body, context teardown) names its own mock function */
+static void scripted_body(void) { TestC *t = current(); log_event("body"); if (!t || !t->ctx) decl_counter = 0; if (t) { running_file = t->spec.filename; do_acts(t->body, t->nbody); } }
+static void ctx_setup(void) { TestC *t = current(); log_event("ctxSetup"); decl_counter = 0; if (t) do_acts(t->setup, t->nsetup); }
 static void ctx_teardown(void) { TestC *t = current(); log_event("ctxTeardown"); if (t) do_acts(t->teardown, t->nteardown); }
 /* A suite's fixtures run in the reporting process around its sub-suites (breadcrumb = the suite) and in the
  * test's process around each of its own tests (breadcrumb = the suite + the test) */
